@@ -11,6 +11,7 @@ def _write_module(path, stmts):
   lines = ["from miros.thread_safe_attributes import MetaThreadSafeAttributes", "",
            "class Obj(metaclass=MetaThreadSafeAttributes):", "  _attributes = ['x', 'y']", "",
            "class Other(metaclass=MetaThreadSafeAttributes):", "  _attributes = ['x']", "",
+           "class Holder(metaclass=MetaThreadSafeAttributes):", "  _attributes = ['o']", "",
            "def ident(z):", "  return z", ""]
   for k, s in enumerate(stmts):
     lines += ["def stmt_%d(a, b, t, v):" % k, "  _lock = None", "  " + s, "  return t, _lock", ""]
@@ -67,7 +68,10 @@ def lock_state(lk):
 
 
 # ------------------------------------------------------------------ C27
-C27_FORMS = [("read", "t = a.x"), ("set", "a.x = v"), ("aug+", "a.x += v"), ("aug-", "a.x -= v"), ("aug*", "a.x *= v")]
+C27_FORMS = [("read", "t = a.x"), ("set", "a.x = v"), ("aug+", "a.x += v"), ("aug-", "a.x -= v"), ("aug*", "a.x *= v"),
+             ("aug+y", "a.x += a.y"),          # two thread-safe attributes on one line
+             ("sety", "a.y = v"), ("augy", "a.y += v"),
+             ("aug+nested", "b.o.x += v")]     # b.o is a thread-safe attribute holding `a`: x is reached through another attribute
 
 
 def c27_run(progs, policy, max_steps=800):
@@ -77,9 +81,11 @@ def c27_run(progs, policy, max_steps=800):
   dsched.CUR = sched
   try:
     mod = load_statements([s for _, s in C27_FORMS], sched)
-    a, b = mod.Obj(), mod.Obj()
+    a, b = mod.Obj(), mod.Holder()
     dsched.CUR = None
     a.x = 1
+    a.y = 2
+    b.o = a
     dsched.CUR = sched
 
     def worker(ops):
@@ -88,11 +94,14 @@ def c27_run(progs, policy, max_steps=800):
     for t, ops in sorted(progs.items()):
       sched.spawn(t, worker, ops)
     out = sched.run()
-    lk = lock_of(mod)
+    lks = [lock_of(mod), lock_of(mod, "Obj", "y"), lock_of(mod, "Holder", "o")]
     dsched.CUR = None
-    final = a.x if (lk.owner is None) else object.__getattribute__(mod.Obj.__dict__["x"], "_value") if hasattr(mod.Obj.__dict__["x"], "_value") else -1
-    return {"outcome": out, "final": final if isinstance(final, int) else -1, "errors": len(sched.errors), "errs": sched.errors[:1],
-            "done": all(vt.state == "done" for vt in sched.threads), "lock_count": lk.count, "schedule": [c[0] for c in sched.choices],
+    final = [-1, -1]
+    if all(lk.owner is None for lk in lks):
+      fx, fy = a.x, a.y
+      final = [fx if isinstance(fx, int) else -1, fy if isinstance(fy, int) else -1]
+    return {"outcome": out, "final": final, "errors": len(sched.errors), "errs": sched.errors[:1],
+            "done": all(vt.state == "done" for vt in sched.threads), "lock_count": sum(lk.count for lk in lks), "schedule": [c[0] for c in sched.choices],
             "choices": list(sched.choices), "blocked": sched.blocked()}
   finally:
     sched.teardown()
@@ -173,12 +182,26 @@ def c28_run(seed, n):
 # ------------------------------------------------------------------ C29
 def c29_run(seed, n):
   rng = random.Random(seed)
-  mod = load_statements(["t = a.x"])
+  AUG = {("x", "x"): 0, ("x", "y"): 1, ("y", "x"): 2, ("y", "y"): 3}
+  mod = load_statements(["a.x += b.x", "a.x += b.y", "a.y += b.x", "a.y += b.y"])
   recs = []
   for _ in range(n):
     insts, ops = {}, []
     for _ in range(rng.randint(2, 8)):
-      k = rng.choice(["new", "new", "set", "set", "get", "get"])
+      k = rng.choice(["new", "new", "set", "set", "get", "get", "aug", "aug"])
+      if k == "aug" and len(insts) >= 1:
+        # `a.attr += b.attr2` on one line, a and b any two objects (possibly the same one, possibly of different classes)
+        na, nb = rng.choice(sorted(insts)), rng.choice(sorted(insts))
+        aa = "x" if type(insts[na]).__name__ == "Other" else rng.choice(["x", "y"])
+        ab = "x" if type(insts[nb]).__name__ == "Other" else rng.choice(["x", "y"])
+        try:
+          getattr(mod, "stmt_%d" % AUG[(aa, ab)])(insts[na], insts[nb], 0, 0)
+          ops.append(["aug", na, type(insts[na]).__name__, aa, getattr(insts[na], aa), "ok", nb, ab])
+        except Exception as ex:  # noqa
+          ops.append(["aug", na, type(insts[na]).__name__, aa, 0, "raised:" + type(ex).__name__, nb, ab])
+        continue
+      if k == "aug":
+        k = "new"
       if k == "new" or not insts:
         cls = rng.choice(["Obj", "Other"])
         nm = "%s%d" % (cls[0].lower(), len(insts) + 1)
